@@ -402,6 +402,9 @@ err_t btokSMCmdUnwrap(apdu_cmd_t* cmd, size_t* size, const octet apdu[],
 		if (count != 4 + cdf_len_len + len + rdf_len_len ||
 			!memIsZero(apdu + 4 + cdf_len_len + len, rdf_len_len))
 			return ERR_BAD_APDU;
+		// форма Lc* не соответствует правилам 1 -- 3?
+		if (cdf_len_len != (size_t)(rdf_len_len == 2 || len >= 256 ? 3 : 1))
+			return ERR_BAD_APDU;
 	}
 	// разобрать защищенное поле cdf: имитовставка
 	c3 = derDec3(&mac, apdu + offset + c1 + c2, len - c1 - c2, 0x8E, 8);
